@@ -57,7 +57,20 @@ pub struct Known {
     pub what: String,
 }
 
+thread_local! {
+    static KNOWN_CACHE: std::cell::RefCell<Option<Vec<Known>>> = const { std::cell::RefCell::new(None) };
+}
+
 pub fn load_known() -> Vec<Known> {
+    if let Some(k) = KNOWN_CACHE.with(|c| c.borrow().clone()) {
+        return k;
+    }
+    let k = load_known_file();
+    KNOWN_CACHE.with(|c| *c.borrow_mut() = Some(k.clone()));
+    k
+}
+
+fn load_known_file() -> Vec<Known> {
     let p = verif_root().join("known_findings.json");
     match std::fs::read_to_string(&p) {
         Ok(s) => serde_json::from_str::<Vec<Known>>(&s).expect("known_findings.json"),
